@@ -4,8 +4,10 @@ package c03
 
 import (
 	"fmt"
+	"math"
 	"math/rand"
 
+	"github.com/golang/geo/r3"
 	"github.com/golang/geo/s2"
 
 	"verif/internal/gen"
@@ -45,6 +47,7 @@ func Run(m *mon.M) {
 	m.Stream("quad.shared", m.N(600000, 30000000), quadShared)
 	m.Stream("quad.collinear", m.N(200000, 10000000), quadCollinear)
 	m.Stream("quad.denormal", m.N(60000, 3000000), quadDenormal)
+	m.Stream("quad.tiny", m.N(60000, 3000000), quadTiny)
 	m.Stream("hist", m.N(40000, 2000000), history)
 }
 
@@ -208,6 +211,43 @@ func quadDenormal(c *mon.Case) {
 	default:
 		checkQuad(c, a, b, cc, d)
 	}
+}
+
+// quadTiny (round 9): four points next to one axis whose two small coordinates are rounded multiples
+// t*(u,v) of one direction of scale 2^-600..2^-150: collinear up to rounding, with squared edge lengths that
+// are normal floats one by one while their products underflow (the regime between "denormal" and "tiny").
+func quadTiny(c *mon.Case) {
+	r := c.R
+	e := -600 + r.Intn(451)
+	u := math.Ldexp(1+r.Float64(), e)
+	v := math.Ldexp(1+r.Float64(), e-r.Intn(3))
+	if r.Intn(2) == 0 {
+		v = -v
+	}
+	ax := r.Intn(3)
+	sg := float64(1 - 2*r.Intn(2))
+	mk := func() s2.Point {
+		t := float64(r.Intn(2001) - 1000)
+		co := [3]float64{}
+		co[ax] = sg
+		co[(ax+1)%3] = t * u
+		co[(ax+2)%3] = t * v
+		if r.Intn(4) == 0 {
+			co[(ax+1)%3] = math.Nextafter(co[(ax+1)%3], float64(r.Intn(3)-1))
+		}
+		return s2.Point{Vector: r3.Vector{X: co[0], Y: co[1], Z: co[2]}}
+	}
+	a, b, cc, d := mk(), mk(), mk(), mk()
+	if r.Intn(3) == 0 {
+		// d off the line, so that AB and CD cross properly at a tiny angle
+		d = s2.Point{Vector: r3.Vector{X: d.X, Y: d.Y, Z: d.Z}}
+		co := []*float64{&d.X, &d.Y, &d.Z}
+		*co[(ax+1)%3] += float64(r.Intn(7)-3) * v
+	}
+	if c.I < 2 {
+		c.Sample(map[string]any{"a": gen.Hex(a), "b": gen.Hex(b), "c": gen.Hex(cc), "d": gen.Hex(d)})
+	}
+	checkQuad(c, a, b, cc, d)
 }
 
 // quadCollinear: four points on one great circle (rounded, +-ulps), CD beyond
